@@ -199,7 +199,7 @@ pub fn prop() -> Prop {
         gen,
         check,
         panic_is_violation: false,
-        budget: (200_000, 5_000_000),
+        budget: (1200000, 30000000),
         extra: Some(extra),
         required: &["indented_multi_line", "empty_paragraph_with_indent", "pair_multi_line"],
         known: None,
